@@ -181,7 +181,12 @@ def s_ma_len(E, c, args):
     return VInt(n, "usize")
 
 
+def s_btree_new(E, c, args):
+    return VStruct("#AssetMap", [VInt(0, "u64"), VBool(False), None])
+
+
 SUMMARIES = {
+    r"BTreeMap::<.*ScriptHash, Assets>::new$": s_btree_new,
     r"(^|::)Value::checked_add$": s_checked_add,
     r"(^|::)Value::checked_sub$": s_checked_sub,
     r"(^|::)Value::clamped_sub$": s_clamped_sub,
